@@ -13,11 +13,8 @@ Conventions (as in `Model/Message.lean`)
 * dictionaries (`plugins`, `old_queries`) are their optional root cells; `HashMap.serialize` / `HashMap.parse`
   are C09/C10.
 
-Half-implemented parts of the library, mirrored as they are (finding F23):
-* `HighloadWalletData.serialize` writes `HashMap(key_size=64, value_serializer=…).serialize()` -- a NEW, EMPTY
-  map, i.e. `store_dict(None)` -- and never looks at `self.old_queries`;
-* `WalletMessage.deserialize` is `pass`: it returns `None` for every input (so `HighloadWalletData.deserialize`
-  yields `{query_id: None, …}`).
+The model mirrors the code AFTER the fix of F23 (`HighloadWalletData.serialize` used to serialise a new, empty
+`HashMap` instead of `self.old_queries`; `WalletMessage.deserialize` used to be `pass`).
 -/
 import TonVerif.Model.Message
 import TonVerif.Spec.Tlb.Wrappers
@@ -80,14 +77,14 @@ def loadWalletV4 : SOp R (WalletV4 R) := do
 def serializeWalletV4 (ops : CellOps R) (w : WalletV4 R) : Option R := cellOf ops (walletV4B w)
 def deserializeWalletV4 (ops : CellOps R) (c : R) : Option (WalletV4 R) := parseCell ops loadWalletV4 c
 
-/-- `HighloadWalletData.serialize`: `old_queries` is NOT written -- an empty `HashMap` is serialised instead of
-    `self.old_queries` (finding F23) -/
+/-- `HighloadWalletData.serialize`: `store_dict(HashMap(64, map_=self.old_queries, value_serializer=…).serialize())`;
+    the dictionary is its optional root cell (`None` for `None` / `{}`), built by `HashMap.serialize` (C09/C10) from the
+    values' `WalletMessage.serialize()` -/
 def highloadB (w : Highload R) : BOp R :=
-  storeUint w.walletId 32 ⊳ storeUint w.lastCleaned 64 ⊳ storeBytes w.publicKey ⊳ storeDict none
+  storeUint w.walletId 32 ⊳ storeUint w.lastCleaned 64 ⊳ storeBytes w.publicKey ⊳ storeDict w.oldQueries
 
-/-- `HighloadWalletData.deserialize`: `load_dict(64, value_deserializer=WalletMessage.deserialize)`; the model
-    returns the dictionary root (what `HashMap.parse` makes of it is C09/C10; every value comes back as `None`,
-    see `deserializeWalletMsg`) -/
+/-- `HighloadWalletData.deserialize`: `load_dict(64, value_deserializer=WalletMessage.deserialize)`; the model returns the
+    dictionary root (`HashMap.parse` is C09/C10; each value is read by `loadWalletMsg`) -/
 def loadHighload : SOp R (Highload R) := do
   let w ← SOp.loadUint 32
   let lc ← SOp.loadUint 64
@@ -108,9 +105,14 @@ def serializeWalletMsg (ops : CellOps R) (w : WalletMsg R) : Option R :=
     let r2 := storeRef mc r.1
     if !r2.2 then none else ops.make r2.1.bits r2.1.refs
 
-/-- `WalletMessage.deserialize(cls, *args): pass` -- returns normally, with the value `None` (= inner `none`),
-    whatever the argument -/
-def deserializeWalletMsg (_ops : CellOps R) (_c : R) : Option (Option (WalletMsg R)) := some none
+/-- `WalletMessage.deserialize`: `cls(send_mode=load_uint(8), message=MessageAny.deserialize(load_ref().begin_parse()))` -/
+def loadWalletMsg (ops : CellOps R) : SOp R (WalletMsg R) := do
+  let mode ← SOp.loadUint 8
+  let r ← SOp.loadRef
+  let m ← SOp.ofOption (deserialize ops r)
+  return ⟨mode, m⟩
+
+def deserializeWalletMsg (ops : CellOps R) (c : R) : Option (WalletMsg R) := parseCell ops (loadWalletMsg ops) c
 
 /-! ### NFT -/
 
